@@ -100,3 +100,152 @@ contract(FL + 'detect_flags', props=['C17'],
                    "else (('output_fields' not in params) if flags().no_output_fields "
                    "else params.get('output_fields') == [])"),
                   ('in_place-never-from-the-command-line', "params['in_place'] is False")])
+
+
+# ---------------------------------------------------------------------------
+# front-ends: a missing input exits 1 before anything is written; otherwise the
+# file front-end is called once with exactly the parsed parameters (C17)
+# ---------------------------------------------------------------------------
+from pyvc.contracts import Contract
+from pyvc.sym import SStr
+from pyvc import extract
+
+PD = 'tdda/constraints/pd/'
+
+
+def _front_view(cls, relpath):
+    def view(it):
+        rc = extract.load_module(relpath).classes[cls]
+        o = SObj(cls, {'argv': ['tdda-cmd', 'x'], 'verbose': it.fresh(T.bool, 'verbose')}, label='self')
+        o.repo_class = rc
+        return o
+    return view
+
+
+def _front_setup(params_fn, from_file_fn, extra_keys=()):
+    def setup(it, senv):
+        path = it.fresh(T.union(T.none, T.const('-'), T.str), 'df_path')
+        params = {'df_path': path, 'constraints_path': it.fresh(T.opt(T.str), 'constraints_path')}
+        for k in extra_keys:
+            params[k] = it.fresh(T.opt(T.str), k)
+        it.ghost['params'] = params
+        it.ghost['calls'] = []
+        isfile = z3.Bool(it.path.fresh_name('input_is_a_file'))
+        it.ghost['isfile'] = isfile
+        it.spec_env[params_fn] = Builtin(lambda it2, args: dict(params))
+
+        def from_file(it2, *a, **kw):
+            it2.ghost['calls'].append((a, dict(kw), len(it2.path.writes)))
+            return SObj('Result', {'__open__': False})
+        it.spec_env[from_file_fn] = Builtin(from_file)
+        it.spec_env['handle_tilde'] = Builtin(lambda it2, p: p)
+        ospath = SObj('os.path', {'__open__': False})
+        ospath.methods['isfile'] = Builtin(lambda it2, self, p: SBool(isfile))
+        it.spec_env['os'] = SObj('os', {'path': ospath, '__open__': False})
+    return setup
+
+
+@specfn
+def real_missing_input(it):
+    p = it.ghost['params']['df_path']
+    if p is None or (isinstance(p, str) and p == '-'):
+        return False
+    dash = values_equal(it, p, '-')
+    return SBool(z3.And(z3.Not(zbool(dash)), z3.Not(it.ghost['isfile'])))
+
+
+@specfn
+def front_end_called_once_with_params(it, verbose):
+    calls = it.ghost['calls']
+    if len(calls) != 1:
+        return False
+    a, kw, nwrites = calls[0]
+    want = dict(it.ghost['params'])
+    if a or nwrites != 0:
+        return False
+    if set(kw) != set(want) | {'verbose'}:
+        return False
+    return all(kw[k] is want[k] for k in want) and kw['verbose'] is verbose
+
+
+@specfn
+def nothing_called_or_written(it):
+    return not it.ghost['calls'] and not it.path.writes
+
+
+_FENV = dict(ENV, real_missing_input=real_missing_input,
+             front_end_called_once_with_params=front_end_called_once_with_params,
+             nothing_called_or_written=nothing_called_or_written)
+
+for _cls, _mod, _meth, _pf, _ff, _extra in (
+        ('PandasDiscoverer', 'discover.py', 'discover', 'pd_discover_params', 'discover_df_from_file', ()),
+        ('PandasVerifier', 'verify.py', 'verify', 'pd_verify_params', 'verify_df_from_file', ()),
+        ('PandasDetector', 'detect.py', 'detect', 'pd_detect_params', 'detect_df_from_file', ('outpath',))):
+    contract(PD + _mod + '::' + _cls + '.' + _meth, props=['C17'], params={},
+             self_view=_front_view(_cls, PD + _mod), on_entry=_front_setup(_pf, _ff, _extra),
+             spec_env=_FENV, result=T.opaque,
+             allow_raise={'SystemExit': 'real_missing_input() and nothing_called_or_written()'},
+             ensures=[('missing-input-exits', 'not real_missing_input()'),
+                      ('file-front-end-called-once-with-the-parsed-parameters',
+                       'front_end_called_once_with_params(self.verbose)')])
+
+
+# discover_df_from_file: the constraints file is written only after discovery succeeded
+def _ddf_setup(it, senv):
+    log = it.ghost.setdefault('log', [])
+    it.spec_env['load_df'] = Builtin(lambda it2, p: (log.append('load_df'), SObj('DataFrame', {'__open__': False}))[1])
+    cons = SObj('DatasetConstraints', {'__open__': False})
+    cons.methods['to_json'] = Builtin(lambda it2, self, tddafile=None: (log.append('to_json'), it2.fresh_str('json'))[1])
+    found = z3.Bool(it.path.fresh_name('constraints_found'))
+
+    def discover(it2, df, **kw):
+        log.append('discover_df')
+        it2.ghost['discover_kwargs'] = dict(kw)
+        return cons if it2.branch(found) else None
+    it.spec_env['discover_df'] = Builtin(discover)
+    stdin = SObj('stdin', {'__open__': False})
+    stdin.methods['read'] = Builtin(lambda it2, self: it2.fresh_str('stdin-text'))
+    it.spec_env['sys'] = SObj('sys', {'stdin': stdin, '__open__': False})
+    it.spec_env['StringIO'] = Builtin(lambda it2, s: SObj('StringIO', {'__open__': False}))
+
+    def ghost_open(it2, path, mode='r', *a, **k):
+        log.append(('open', path, mode))
+        if any(c in mode for c in 'wax+'):
+            it2.path.writes.append(('open:' + mode, path))
+        f = SObj('file', {'__open__': False})
+        f.methods['write'] = Builtin(lambda it3, self, data: log.append(('write', data)))
+        return f
+    it.spec_env['open'] = Builtin(ghost_open)
+
+
+@specfn
+def written_only_after_discovery(it, constraints_path):
+    log = it.ghost['log']
+    opens = [e for e in log if isinstance(e, tuple) and e[0] == 'open']
+    if constraints_path is None or constraints_path == '-':
+        return not opens
+    if 'discover_df' not in log:
+        return not opens
+    if not opens:
+        return True         # discovery found nothing: nothing written
+    i = log.index(opens[0])
+    return (len(opens) == 1 and opens[0][1] is constraints_path and 'w' in opens[0][2]
+            and 'discover_df' in log[:i] and 'to_json' in log[:i])
+
+
+@specfn
+def library_called_with(it, **expected):
+    kw = it.ghost.get('discover_kwargs')
+    return kw is not None and all(kw.get(k) is v for k, v in expected.items())
+
+
+contract(PD + 'discover.py::discover_df_from_file', props=['C17'],
+         params=dict(df_path=T.union(T.const('-'), T.str),
+                     constraints_path=T.union(T.none, T.const('-'), T.str), verbose=T.bool),
+         kwparams=dict(inc_rex=T.bool), on_entry=_ddf_setup,
+         spec_env=dict(ENV, written_only_after_discovery=written_only_after_discovery,
+                       library_called_with=library_called_with), result=T.opaque,
+         ensures=[('constraints-file-written-only-after-discovery',
+                   'written_only_after_discovery(constraints_path)'),
+                  ('library-called-with-the-given-keywords',
+                   "library_called_with(inc_rex=kwargs_given['inc_rex'])")])
